@@ -94,7 +94,38 @@ func propC09(run *Run, n int) {
 			ts = append(ts, perturb(r, cfg, a, b))
 		}
 		addC09Case(run, a, b, ts)
+		if r.Chance(1, 4) {
+			// a hand-written list hunk with several context lines, on a target where it applies: RenderPatch
+			// may refuse it, but what it renders must mean the same
+			t, hw := handListHunk(r, cfg)
+			nat := implPatch(t.Wire(), hw)
+			if strings.HasPrefix(nat, "ok ") {
+				if rb, err := ParseWire(nat[3:]); err == nil {
+					addC09Hand(run, t, rb, hw)
+				}
+			}
+		}
 	}
+}
+
+// addC09Hand: dw is a hand-written diff that applies to a and gives b
+func addC09Hand(run *Run, a, b *Val, dw string) {
+	aw, bw := a.Wire(), b.Wire()
+	txt := implRenderPatch(dw)
+	c := Case{Recipe: Recipe{"c09h", []string{aw, bw, dw}}, Desc: map[string]string{"a": a.Human(), "b": b.Human(), "diff": dw, "impl_patch_text": txt}}
+	c.Nontrivial = true
+	c.Sig = "hand|" + aw + "|" + dw
+	text, ok := outcomeText(txt)
+	nd := numDict([]string{dw, aw, bw}, []string{text})
+	c.Probes = append(c.Probes, Probe{Kind: "corr", Rel: "RenderPatch = renderPatchM", Line: fmt.Sprintf("renderpatch %s %s", nd, dw), Want: txt})
+	if ok {
+		c.Probes = append(c.Probes, Probe{Kind: "oracle", Rel: "C09 RFC 6902 evaluation of the rendered patch: on a gives b; same result wherever the native diff applies; inexpressible paths refused",
+			Line: fmt.Sprintf("c09 %s %s %s %s %s %d %s", nd, aw, bw, dw, txt, 1, aw+" ok "+bw)})
+		run.Count("hand-written:rendered")
+	} else {
+		run.Count("hand-written:refused")
+	}
+	run.Add(c)
 }
 
 func addC09Case(run *Run, a, b *Val, ts []*Val) {
@@ -215,6 +246,27 @@ func propC10(run *Run, n int) {
 				ops = []jop{{"add", "/o", json.RawMessage(`{"a":[]}`)}, {"add", "/o/a/0", json.RawMessage(`[5]`)}, {"add", "/o/a/0/-", json.RawMessage(`6`)}}
 			}
 			addC10Case(run, "build-up", opsText([][]jop{ops}), t, t, t)
+		}
+		if r.Chance(1, 8) {
+			// hand-written: [test /i-1 X] [add /i+k V] then k test+remove pairs at /i, V = the element behind the
+			// removed ones: the add sits where an after-context test would (RFC 6902 executes it)
+			n := 3 + r.Intn(3)
+			xs := []*Val{}
+			for j := 0; j < n; j++ {
+				xs = append(xs, VStr(string(rune('a'+j))))
+			}
+			i := 1 + r.Intn(n-2)
+			k := 1 + r.Intn(n-1-i)
+			enc := func(v *Val) json.RawMessage { return json.RawMessage(cliJSON(v)) }
+			ops := []jop{{"test", fmt.Sprintf("/%d", i-1), enc(xs[i-1])}, {"add", fmt.Sprintf("/%d", i+k), enc(VStr("end"))}}
+			if i+k < n {
+				ops[1].Value = enc(xs[i+k])
+			}
+			for j := 0; j < k; j++ {
+				ops = append(ops, jop{"test", fmt.Sprintf("/%d", i), enc(xs[i+j])}, jop{"remove", fmt.Sprintf("/%d", i), enc(xs[i+j])})
+			}
+			t := VArr(xs...)
+			addC10Case(run, "nontest-in-after-slot", opsText([][]jop{ops}), t, t, t)
 		}
 		// own output first
 		addC10Case(run, "own", opsText(groups), a, a, b)
@@ -866,6 +918,7 @@ func init() {
 		}
 		addC09Case(run, mustVal(a[0]), mustVal(a[1]), ts)
 	}
+	recipes["c09h"] = func(run *Run, a []string) { addC09Hand(run, mustVal(a[0]), mustVal(a[1]), a[2]) }
 	recipes["c10"] = func(run *Run, a []string) { addC10Case(run, a[0], a[1], mustVal(a[2]), mustVal(a[3]), mustVal(a[4])) }
 	recipes["c11"] = func(run *Run, a []string) { addC11Case(run, mustOpts(a[0]), mustVal(a[1]), mustVal(a[2])) }
 	recipes["c12"] = func(run *Run, a []string) { addC12Case(run, mustVal(a[0]), mustVal(a[1])) }
